@@ -41,6 +41,7 @@ pub struct SynB {}
 #[unit(Ab_Half, "hAB", 0.5)]
 #[unit(Ab_Deca, "daAB", DECA, 10)]
 #[unit(Ab_Tebi, "TiAB", TERA, 1099511627776)]
+#[unit(Ab_Micro, "µAB", MICRO, 0.00002)]
 pub struct SynAB {}
 
 #[quantity(SynA / SynB)]
